@@ -157,8 +157,8 @@ def run_task(task):
                                   "detail": {"first_difference": [str(x)[:300] for x in dv[0]], "n": len(dv)}})
     try:
         again = json.loads(json.dumps(system_to_json(lm.system, save_calculated_attributes=flag)))
-        if again != saved:
-            diffk = first_json_diff(saved, again)
+        if normalise(again) != normalise(saved):
+            diffk = first_json_diff(normalise(saved), normalise(again))
             res["violations"].append({"sig": dict(sigbase, clause="re-export-differs", where=diffk[0]),
                                       "detail": {"path": diffk[1], "saved": str(diffk[2])[:200], "again": str(diffk[3])[:200]}})
     except Exception as ex:  # noqa
@@ -192,32 +192,53 @@ def run_task(task):
         except Exception as ex:  # noqa
             live_exc = type(ex).__name__ + ": " + str(ex)[:150]
         boot.set_ranks(m.ranks)
-        fr = c01.fresh_snapshot(w2, perms)
+        ref_exc = None
+        try:
+            W.apply_live(m, g)     # m was freshly built (follow-ups are only asked for an empty history)
+        except Exception as ex:  # noqa
+            ref_exc = type(ex).__name__
         boot.set_ranks(m.ranks)
-        if live_exc is None and fr[0] == "ok":
-            dd = S.diff(S.value_snapshot(lm.system), fr[1], empty_entries_neutral=True)
+        if live_exc is None and ref_exc is None:
+            dd = S.diff(S.value_snapshot(lm.system), S.value_snapshot(m.system))
             if dd:
                 rank = S.canonical_rank(S.system_objects(lm.system))
                 first = min(dd, key=lambda t: (rank.get(t[0], (99, 99)), t[0]))
                 o = lm.objs.get(first[0][0])
-                sig = dict(sigbase, clause="edit-on-loaded-system-differs-from-fresh-build", letter=lc,
-                           first_divergent=S.class_attr(S.unwrap(o), first[0][1]) if o is not None else "?",
-                           removes_element=str(c01.removes_element(w, g)))
+                sig = dict(sigbase, clause="edit-on-loaded-system-differs-from-freshly-built-one", letter=lc,
+                           first_divergent=S.class_attr(S.unwrap(o), first[0][1]) if o is not None else "?")
                 res["violations"].append({"sig": sig, "detail": {"first": [str(x)[:300] for x in first], "n": len(dd)}})
             res["followup"] = "accepted"
-        elif live_exc is not None and fr[0] == "ok":
-            # compare with the same letter on the original live model
-            try:
-                W.apply_live(m, g)
-                res["violations"].append({"sig": dict(sigbase, clause="edit-raises-on-loaded-system-only", letter=lc,
-                                                      exc=live_exc.split(":")[0]), "detail": {"exception": live_exc}})
-            except Exception:  # noqa
-                pass
-            res["followup"] = "raised"
+        elif (live_exc is None) != (ref_exc is None):
+            res["violations"].append({"sig": dict(sigbase, clause="edit-accepted-on-one-side-only", letter=lc,
+                                                  loaded=str(live_exc).split(":")[0], fresh=str(ref_exc)),
+                                      "detail": {"loaded": live_exc, "fresh": ref_exc}})
+            res["followup"] = "one-sided"
         else:
-            res["followup"] = "other"
+            res["followup"] = "both-raise"
     res["vdigest"] = S.digest(orig_values, 8)
     return res
+
+
+def normalise(d, exported=None):
+    """The calculation-graph id lists encode sets (their order is the order of registration): compare them sorted, and
+    ignore ids of values held by objects that are not in the file (spare objects outside the system: the loaded model
+    cannot know them)."""
+    if exported is None:
+        exported = set()
+        for cls, objs in d.items():
+            if isinstance(objs, dict):
+                exported.update(objs.keys())
+    if isinstance(d, dict):
+        out = {}
+        for k, v in d.items():
+            if k in ("direct_children_with_id", "direct_ancestors_with_id") and isinstance(v, list):
+                out[k] = sorted(x for x in v if x.split("-in-")[-1] in exported)
+            else:
+                out[k] = normalise(v, exported)
+        return out
+    if isinstance(d, list):
+        return [normalise(x, exported) for x in d]
+    return d
 
 
 def first_json_diff(a, b, path=""):
@@ -256,11 +277,15 @@ def make_tasks(tier):
         w0 = W.family(fam)
         scheds = [{}, H.reversed_schedule(w0)] if sched == "rev" else [{}]
         if fam == "W4":
-            letters = H.numeric_letters(w0, w0, specials=False) + H.list_letters(w0)
+            letters = H.numeric_letters(w0, w0, specials=False) + H.list_letters(w0, allow_empty=False)
         else:
-            letters = c01.core_alphabet(w0, w0)
-        step = max(1, len(letters) // max(1, nstates))
-        hists = [[]] + [[e] for e in letters[::step]][:nstates]
+            letters = [e for e in c01.core_alphabet(w0, w0) if not (e[0] == "list" and not e[3])]
+        # histories before saving: no empty list, no removal of a usage pattern (the dangling pattern's ghost traffic is
+        # C01's known finding and the removed pattern is not exported)
+        hist_letters = [e for e in letters if not (e[0] == "list" and not e[3])
+                        and c01.removes_element(w0, e) != "System.usage_patterns"]
+        step = max(1, len(hist_letters) // max(1, nstates))
+        hists = [[]] + [[e] for e in hist_letters[::step]][:nstates]
         for perms in scheds:
             for hi, hist in enumerate(hists):
                 for flag in (False, True):
